@@ -32,6 +32,11 @@ CHECKS = {
     technique="z3 polynomial-identity check of each derived ground-state expression (energy, MP amplitude, RE residual, 1-/2-particle expectation value) against explicit RSPT on occupation bit strings with symbolic integrals, orbital energies and lower-order amplitudes; CrossHair on gen_term_orders",
     text="Each expression returned by the real GroundState API is shown equal, for all integrals / orbital energies / lower-order amplitudes and all index assignments of a 2o2v (thorough: up to 3o3v) model, to the quantity computed by explicit determinant-space RSPT; orders <=2 quick, <=3 (energy 4) thorough; mp and re; with/without first-order singles.",
     note="Induction over the order: lower-order wavefunctions are free amplitude unknowns in adcgen's documented convention. Canonical orbitals for MP amplitudes; inverse orbital-energy forms are shared free unknowns (sound). Quadruples (need 4o4v) outside."),
+ "C04": dict(
+    level=TV, design="2/C04", engine="tvsmt",
+    technique="z3 polynomial-identity check: the expression returned by the real overlap_isr is identically the antisymmetrised delta product (order 0, equal classes) or identically zero (all other cases) for all ground-state amplitude values and index assignments; overlap_precursor(I,J) vs (J,I) by z3",
+    text="For the five ADC variants, the two lowest classes, all class pairs and orders <=2 (thorough <=3, mp and re, with/without singles) z3 decides orthonormality of the derived intermediate states for all amplitude values in models that host both index tuples.",
+    note="Bounded orders/classes/models (stated in evidence). Amplitudes are free unknowns, bra amplitudes independent (identified for the precursor-overlap symmetry)."),
 }
 NA_REASON = "check not built yet in this round (planned, see DESIGN.md section 2)"
 
